@@ -41,7 +41,7 @@ def run(c):
         raise tlcmod.TlcError("Relay.tla: %s" % res.trace_text[:1500])
     nconn, nper = (8, 25) if not thorough else (16, 120)
     branches, meta = [], {}
-    faults, aborts = [], []
+    faults, aborts, after_close = [], [], []
     dests = [("168.63.129.16", 80, "ws"), ("169.254.169.254", 80, "imds"), ("168.63.129.16", 32526, "ga"), ("10.9.8.7", 8080, "other")]
     for ci in range(nconn):
         conn = "t%d" % ci
@@ -89,6 +89,21 @@ def run(c):
             br.append({"op": "request", "conn": conn, "id": rid, "method": rnd.choice(["POST", "PUT", "GET"]), "target": "/fault/" + rid,
                        "headers": [["Host", dip]], "body": {"seed": 3, "len": 40}, "framing": "cl", "resp": {"status": 200, "framing": "reset"}})
             faults.append(rid)
+        elif ci % 4 == 1:
+            # the host announces `Connection: close` on an answer and closes; the client may try the connection once more:
+            # whatever answer it gets then must come from the host (a request the proxy does not relay is not transparency)
+            rid, rid2 = "%s_hc" % conn, "%s_ac" % conn
+            rhs = [["Content-Type", "text/plain"], ["X-Host", rid]]
+            br.append({"op": "request", "conn": conn, "id": rid, "method": "GET", "target": "/closing/" + rid, "headers": [["Host", dip], ["X-Token", rid]],
+                       "body": {"seed": 1, "len": 0}, "framing": "none",
+                       "resp": {"status": 200, "headers": rhs, "body": {"seed": 77, "len": 2000}, "framing": "close"}})
+            meta[rid] = {"conn": conn, "k": nper + 1, "method": "GET", "target": "/closing/" + rid, "headers": [["Host", dip], ["X-Token", rid]],
+                         "blen": 0, "bseed": 1, "status": 200, "rhs": rhs, "rlen": 2000, "rseed": 77, "dest": dname}
+            br.append({"op": "sleep", "ms": 50})
+            br.append({"op": "request", "conn": conn, "id": rid2, "method": "GET", "target": "/afterclose/" + rid2, "headers": [["Host", dip]],
+                       "body": {"seed": 1, "len": 0}, "framing": "none", "timeout_ms": 3000,
+                       "resp": {"status": 201, "headers": [["X-Host", rid2]], "body": {"seed": 78, "len": 10}}})
+            after_close.append(rid2)
         br.append({"op": "close", "conn": conn})
         branches.append(br)
         # a separate connection: an exempt upload abandoned in the middle of a chunk
@@ -98,6 +113,28 @@ def run(c):
                           "headers": [["Host", dip]], "body": {"seed": 5, "len": rnd.choice([64, 4096, 200000])}},
                          {"op": "close", "conn": ab}])
         aborts.append(ab)
+    # many guest connections open at the same time (most of them idle): each is served, now and later
+    nidle = 150 if not thorough else 400
+    idle = []
+    for phase in (1, 2):
+        for ii in range(nidle):
+            conn = "idle%d" % ii
+            rid = "%s_%d" % (conn, phase)
+            dip, dport, dname = dests[ii % 2]
+            if phase == 1:
+                idle.append({"op": "connect", "conn": conn, "attr": {"uid": 0, "admin": 1, "dip": dip, "dport": dport}, "timeout_ms": 4000})
+            hs = [["Host", dip], ["X-Token", rid]]
+            rhs = [["Content-Type", "text/plain"], ["X-Host", rid]]
+            idle.append({"op": "request", "conn": conn, "id": rid, "method": "GET", "target": "/idle/" + rid, "headers": hs,
+                         "body": {"seed": 1, "len": 0}, "framing": "none",
+                         "resp": {"status": 200, "headers": rhs, "body": {"seed": ii, "len": 64}, "framing": "cl"}})
+            meta[rid] = {"conn": conn, "k": phase, "method": "GET", "target": "/idle/" + rid, "headers": hs, "blen": 0, "bseed": 1,
+                         "status": 200, "rhs": rhs, "rlen": 64, "rseed": ii, "dest": dname}
+        if phase == 1:
+            idle.append({"op": "sleep", "ms": 300})
+    idle += [{"op": "close", "conn": "idle%d" % ii} for ii in range(nidle)]
+    branches.append(idle)
+    c.extra["simultaneously_open_connections"] = nidle + nconn
     # one-shot exchanges (the proxy is the side that closes): `Connection: close` from the client, a large answer, and a
     # client that reads late through a small receive buffer -- the tail of the body must still arrive
     for oi in range(3 if not thorough else 10):
@@ -177,6 +214,11 @@ def run(c):
         rows.append({"e": "xfault", "id": rid, "hostCount": len(allrecv.get(rid, [])), "clientStatus": r_.get("status", 0) if r_.get("e") == "Response" else 0})
     for rid in aborts:
         rows.append({"e": "xabort", "id": rid, "hostComplete": len(allrecv.get(rid, [])) > 0})
+    for rid in after_close:
+        r_ = resp_by_id.get(rid, {})
+        got = r_.get("e") == "Response"
+        rows.append({"e": "xafter", "id": rid, "gotResponse": got, "fromHost": bool(got and allrecv.get(rid) and r_.get("status") == 201)})
+    c.extra["requests_after_host_close"] = len(after_close)
     c.extra["host_fault_exchanges"] = len(faults)
     c.extra["abandoned_uploads"] = len(aborts)
     if len(rows) < len(meta):
